@@ -78,6 +78,11 @@ class OracleWorld(ip.World):
         return Opq("uf", key)
 
     # ---- strings as terms
+    def str_variant(self, st, v, rv):
+        """`match cow { Borrowed.. / Owned.. }` on a string term: the representation is not part of the
+        content, so both answers are explored (one answer per content term and path)."""
+        return 0 if st.choose(("cow-variant", repr(v.tag)), ["Borrowed", "Owned"]) == "Borrowed" else 1
+
     def str_eq(self, st, a, b):
         if isinstance(a, Str) and isinstance(b, Str):
             if a.tag == b.tag:
